@@ -423,6 +423,8 @@ structure DTx where
   signers : List Bytes
   metadata : List (Int × DMeta)
   fee : Int
+  /-- `cardano::treasury_donation { coin: … }` -/
+  donation : Option Int := none
   deriving Repr, Inhabited
 
 def fuelOf (ρ : Env) : Nat := 64 + 4 * ρ.tx.locals.length
@@ -497,9 +499,19 @@ def denote (ρ : Env) : Outcome DTx := do
     match v with
     | .ref b i => .ok (b, i)
     | _ => illTyped "reference") t.references
+  let donation ← (match t.adhoc.find? (fun d => d.1 = "treasury_donation") with
+    | none => Outcome.ok none
+    | some d =>
+      match lookup d.2 "coin" with
+      | none => illTyped "donation"
+      | some e => do
+        let v ← eval ρ (fuelOf ρ) .plain e
+        match v with
+        | .int n => .ok (some n)
+        | _ => illTyped "donation")
   .ok {
     inputs := dedupAdj (sortBy refLe (ρ.inputs.flatMap (·.refs))),
     referenceInputs := dedupAdj (sortBy refLe refs),
-    outputs, mint := Bag.sub minted burned, validFrom, validUntil, signers, metadata, fee := ρ.fee }
+    outputs, mint := Bag.sub minted burned, validFrom, validUntil, signers, metadata, fee := ρ.fee, donation }
 
 end Tx3.Lang
